@@ -48,6 +48,9 @@ def percent_parts(rng):
 
 
 def ratio_parts(rng):
+    if rng.random() < 0.06:
+        # a zero denominator (also 0/0): reported by the parser and the checker, never a crash
+        return rng.choice(["0", "00", "1", "7", digit_string(rng)]), rng.choice(["0", "00", "000"])
     return digit_string(rng), digit_string(rng, allow_zero=False)
 
 
